@@ -109,9 +109,12 @@ pub fn draw_sizes(cfg: &DatabaseConfig) -> Vec<usize> {
 pub fn save_scripted(db: &Database, password: &str, draws: &[Vec<u8>]) -> Result<(Vec<u8>, Vec<usize>), String> {
     crate::hook::script(draws.to_vec());
     let r = std::panic::catch_unwind(std::panic::AssertUnwindSafe(|| {
-        let mut out = Vec::new();
+        // the destination is a plain sink: it implements `write` and `flush` only (no vectored or
+        // specialised writes), and in half of the cases accepts a bounded number of bytes per call
+        let cap = match draws.first().and_then(|d| d.first().copied()) { Some(b) if b % 2 == 1 => 1 + (b as usize) * 7, _ => usize::MAX };
+        let mut out = PlainSink { buf: Vec::new(), cap };
         let r = db.save(&mut out, DatabaseKey::new().with_password(password));
-        (out, r)
+        (out.buf, r)
     }));
     let requested = crate::hook::requested();
     crate::hook::unscript();
@@ -120,6 +123,12 @@ pub fn save_scripted(db: &Database, password: &str, draws: &[Vec<u8>]) -> Result
         Ok((_, Err(e))) => Err(format!("{:?}", e).split(|c| c == '(' || c == ' ').next().unwrap().to_string()),
         Ok((out, Ok(()))) => Ok((out, requested)),
     }
+}
+
+pub struct PlainSink { pub buf: Vec<u8>, pub cap: usize }
+impl std::io::Write for PlainSink {
+    fn write(&mut self, b: &[u8]) -> std::io::Result<usize> { let n = b.len().min(self.cap); self.buf.extend_from_slice(&b[..n]); Ok(n) }
+    fn flush(&mut self) -> std::io::Result<()> { Ok(()) }
 }
 
 fn find_sub(hay: &[u8], needle: &[u8]) -> bool {
@@ -134,7 +143,7 @@ pub fn run(args: &Args) {
     let mut agg = Aggregate::new();
     let hostile = prop == "C12";
     let n = match prop.as_str() { "C12" => args.n(1_500, 100_000), _ => args.n(300, 10_000) };
-    let mut streams: Vec<(&str, u64)> = if hostile { vec![("hostile", n)] } else { vec![("save-open", n), ("large", args.n(8, 64))] };
+    let mut streams: Vec<(&str, u64)> = if hostile { vec![("hostile", n), ("large", args.n(8, 64))] } else { vec![("save-open", n), ("large", args.n(8, 64))] };
     // C03 only: tags that contain the separators of the KeePass tag list (finding F18)
     if prop == "C03" { streams.push(("tag-separators", args.n(12, 200))); }
     for (stream, count) in streams {
@@ -180,6 +189,14 @@ pub fn run(args: &Args) {
                     db.config.compression_config = CompressionConfig::GZip;
                 }
                 db.header_attachments.push(HeaderAttachment { flags: 1, content: vec![0x5a; 1000] });
+                // an attachment stored in the XML (Meta/Binaries) above 64 KiB: incompressible content, with
+                // and without the Compressed flag, and a compressible one of 1 MiB
+                if g.rng.chance(2, 3) {
+                    let n = *g.rng.pick(&[65_537usize, 70_000, 98_304, 196_608]);
+                    let content = if g.rng.chance(1, 4) { vec![0u8; 1 << 20] } else { g.rng.bytes(n) };
+                    let compressed = g.rng.chance(1, 2);
+                    db.meta.binaries.binaries.push(keepass::db::BinaryAttachment { identifier: Some("big".into()), compressed, content });
+                }
             }
             if tagsep {
                 use keepass::db::{Entry, Node};
@@ -419,9 +436,9 @@ pub fn run(args: &Args) {
         args,
         &agg,
         if hostile {
-            "databases from the hostile generator over the public structs (empty/blank strings and keys, C0/C1 controls, U+FFFE/FFFF, CR, separators, markup, Value::Bytes incl. invalid UTF-8, protected values empty / invalid UTF-8, empty icons and binaries, odd time-stamp names, sub-second times, extreme integers and dates) x cheap KDBX4 configurations; each is saved (random source scripted) and re-opened under catch_unwind; non-trivial = at least one hostile ingredient used; distinct = distinct (configuration, size, draws)"
+            "databases from the hostile generator over the public structs (empty/blank strings and keys, C0/C1 controls, U+FFFE/FFFF, CR, separators, markup, Value::Bytes incl. invalid UTF-8, protected values empty / invalid UTF-8, empty icons and binaries, odd time-stamp names, sub-second times, extreme integers and dates) x cheap KDBX4 configurations; each is saved (random source scripted, plain sink) and re-opened under catch_unwind; stream `large`: hostile databases with 40..440 extra entries, a protected value and a Meta/Binaries attachment above 64 KiB; non-trivial = at least one hostile ingredient used; distinct = distinct (configuration, size, draws)"
         } else {
-            "databases over the whole public object model inside the lossless domain (every field of Database/Meta/Group/Entry/Times/AutoType/History/CustomData/BinaryAttachment/Icon/HeaderAttachment/DeletedObject, strings with markup, LF/TAB, leading/trailing blanks, astral code points, years 1..9999, integer extremes, colours with small components) x KDBX4 configurations (3 outer ciphers x 2 compressions x 3 inner ciphers x AES-KDF rounds, minor versions); saved with scripted draws, re-opened, decoded by the independent strict reader, and pushed through the extracted dump4/decrypt4 model; non-trivial = at least three nodes; distinct = distinct (configuration, size, draws); stream `large`: the same with 40..440 extra entries, one protected value above 64 KiB, a 1000-byte attachment, and (every second case, ChaCha20 without compression) the payload sized to exactly 2^17/2^18/2^20/2^21 bytes or one byte off"
+            "databases over the whole public object model inside the lossless domain (every field of Database/Meta/Group/Entry/Times/AutoType/History/CustomData/BinaryAttachment/Icon/HeaderAttachment/DeletedObject, strings with markup, LF/TAB, leading/trailing blanks, astral code points, years 1..9999, integer extremes, colours with small components) x KDBX4 configurations (3 outer ciphers x 2 compressions x 3 inner ciphers x AES-KDF rounds, minor versions); saved with scripted draws into a plain sink (only `write`/`flush`; in half of the cases it accepts a bounded number of bytes per call), re-opened, decoded by the independent strict reader, and pushed through the extracted dump4/decrypt4 model; non-trivial = at least three nodes; distinct = distinct (configuration, size, draws); stream `large`: the same with 40..440 extra entries, one protected value above 64 KiB, a 1000-byte attachment, (two thirds of the cases) a Meta/Binaries attachment above 64 KiB - incompressible noise or 1 MiB of zeros, with and without the Compressed flag - and (every second case, ChaCha20 without compression) the payload sized to exactly 2^17/2^18/2^20/2^21 bytes or one byte off"
         },
         serde_json::json!({}),
     );
